@@ -53,6 +53,12 @@ Theorem C06_stream_faults_surface : forall (A : Type) (p : prog A) data sched ha
    end).
 Proof. exact @run_frag_faulty. Qed.
 
+From Peppi Require Proofs.ReaderTies.
+(* the reader model these theorems speak about is the one regenerated from the source on this run: one-shot read, every incremental
+   entry point, the event dispatch with the splitter, the Game Start wiring, the metadata reader (Proofs/ReaderTies.v reader_tied) *)
+Theorem C06_reader_is_the_source : ReaderTies.reader_tied.
+Proof. exact ReaderTies.reader_tied_holds. Qed.
+
 Print Assumptions C06_read_total.
 Print Assumptions C06_stream_faults_surface.
 Print Assumptions C06_read_consumes.
@@ -64,3 +70,4 @@ Print Assumptions C06_parse_event_progress.
 Print Assumptions C06_parse_metadata_total.
 Print Assumptions C06_event_loop_total.
 Print Assumptions C06_read_map_total.
+Print Assumptions C06_reader_is_the_source.
